@@ -825,4 +825,223 @@ theorem exec_inv : ∀ (ps : List Prim) (s : St), Inv s → (∀ p ∈ ps, Prim.
     obtain ⟨h1, h2⟩ := prim_inv s p h (hw p (List.mem_cons_self))
     exact exec_inv ps (prim s p) h1 (fun q hq => by rw [h2]; exact hw q (List.mem_cons_of_mem _ hq))
 
+/-! ## a live object always has a positive count; destructor lines count deaths -/
+
+@[reducible] def Pos (s : St) : Prop := ∀ (x : Nat) (o : LObj), s.heap[x]? = some o → o.dead = false → 1 ≤ o.rc
+
+theorem pos_of_heap_eq {s t : St} (hp : Pos s) (h : t.heap = s.heap) : Pos t := by
+  intro x o hx; rw [h] at hx; exact hp x o hx
+
+theorem pos_set {s : St} (hp : Pos s) (x : Nat) (o' : LObj) (h : o'.dead = false → 1 ≤ o'.rc) :
+    Pos { s with heap := s.heap.set x o' } := by
+  intro z oz hz hzd
+  have hz' : (s.heap.set x o')[z]? = some oz := hz
+  by_cases hzx : z = x
+  · subst hzx
+    by_cases hl : z < s.heap.length
+    · simp only [List.getElem?_set_self hl, Option.some.injEq] at hz'
+      subst hz'; exact h hzd
+    · rw [List.getElem?_eq_none (by simpa using Nat.le_of_not_lt hl)] at hz'; cases hz'
+  · rw [List.getElem?_set_ne (Ne.symm hzx)] at hz'
+    exact hp z oz hz' hzd
+
+theorem pos_retain {s : St} (hp : Pos s) (v : Option Nat) : Pos (retain s v) := by
+  cases v with
+  | none => exact hp
+  | some x =>
+    cases h : s.heap[x]? with
+    | none => rw [retain_miss s x h]; exact hp
+    | some o => rw [retain_some s x o h]; exact pos_set hp x _ (fun _ => by show 1 ≤ o.rc + 1; omega)
+
+theorem release_none (fuel : Nat) (s : St) : release fuel s none = s := by cases fuel <;> rfl
+
+theorem release_zero (s : St) (v : Option Nat) : release 0 s v = s := by cases v <;> rfl
+
+theorem release_miss (fuel : Nat) (s : St) (x : Nat) (h : s.heap[x]? = none) : release (fuel + 1) s (some x) = s := by
+  rw [release]; simp only [h]
+
+theorem release_dead (fuel : Nat) (s : St) (x : Nat) (o : LObj) (h : s.heap[x]? = some o) (hd : o.dead = true) :
+    release (fuel + 1) s (some x) = s := by
+  rw [release]; simp only [h]; rw [if_pos hd]
+
+/-- a case principle for `release` that the remaining lemmas share -/
+theorem release_cases (P : St → St → Prop) (hrefl : ∀ s, P s s)
+    (hdec : ∀ s x o, s.heap[x]? = some o → o.dead = false → o.rc > 1 → P s (decSt s x o))
+    (hkill : ∀ s x o t, s.heap[x]? = some o → o.dead = false → P (killSt s x o) t → P s t)
+    (htrans : ∀ s t u, P s t → P t u → P s u) :
+    ∀ fuel s v, P s (release fuel s v) := by
+  intro fuel
+  induction fuel with
+  | zero => intro s v; rw [release_zero]; exact hrefl s
+  | succ fuel ih =>
+    intro s v
+    cases v with
+    | none => rw [release_none]; exact hrefl s
+    | some x =>
+      cases h : s.heap[x]? with
+      | none => rw [release_miss fuel s x h]; exact hrefl s
+      | some o =>
+        cases hd : o.dead with
+        | true => rw [release_dead fuel s x o h hd]; exact hrefl s
+        | false =>
+          rw [release_succ fuel s x o h hd]
+          by_cases hgt : o.rc > 1
+          · rw [if_pos hgt]; exact hdec s x o h hd hgt
+          · rw [if_neg hgt]
+            exact hkill s x o _ h hd (htrans _ _ _ (ih (killSt s x o) o.a) (ih _ o.b))
+
+theorem pos_release {s : St} (hp : Pos s) (fuel : Nat) (v : Option Nat) : Pos (release fuel s v) := by
+  have := release_cases (fun s t => Pos s → Pos t) (fun _ h => h)
+    (fun s x o _ _ hgt hp => pos_set hp x _ (fun _ => by show 1 ≤ o.rc - 1; omega))
+    (fun s x o t _ _ ih hp => ih (pos_of_heap_eq (pos_set hp x (kill o) (fun h => by simp [kill] at h)) rfl))
+    (fun _ _ _ h1 h2 hp => h2 (h1 hp)) fuel s v
+  exact this hp
+
+/-- one destructor line per death, no other line, nothing comes back to life -/
+theorem release_lines (fuel : Nat) (s : St) (v : Option Nat) :
+    (release fuel s v).out.length + liveCount (release fuel s v) = s.out.length + liveCount s := by
+  refine release_cases (fun s t => t.out.length + liveCount t = s.out.length + liveCount s) (fun _ => rfl)
+    ?_ ?_ (fun _ _ _ h1 h2 => by omega) fuel s v
+  · intro s x o ho hd _
+    obtain ⟨hlt, hget⟩ := List.getElem?_eq_some_iff.mp ho
+    have := liveCount_setHeap s x { o with rc := o.rc - 1 } hlt
+    rw [hget] at this
+    have e : liveCount (decSt s x o) = liveCount { s with heap := s.heap.set x { o with rc := o.rc - 1 } } := rfl
+    have e2 : ({ o with rc := o.rc - 1 } : LObj).dead = o.dead := rfl
+    have e3 : (decSt s x o).out = s.out := rfl
+    rw [e2] at this
+    rw [e3]; omega
+  · intro s x o t ho hd ih
+    obtain ⟨hlt, hget⟩ := List.getElem?_eq_some_iff.mp ho
+    have := liveCount_setHeap s x (kill o) hlt
+    rw [hget] at this
+    have e : liveCount (killSt s x o) = liveCount { s with heap := s.heap.set x (kill o) } := rfl
+    have e2 : (kill o).dead = true := rfl
+    have e3 : (killSt s x o).out.length = s.out.length + 1 := by simp [killSt]
+    rw [e2, hd] at this
+    simp at this
+    omega
+
+theorem pos_assignSlot {s : St} (hp : Pos s) (d : Nat) (v : Option Nat) : Pos (assignSlot s d v) := by
+  show Pos (release _ (setSlotRaw (retain s v) d v) _)
+  exact pos_release (pos_of_heap_eq (t := setSlotRaw (retain s v) d v) (pos_retain hp v) rfl) _ _
+
+theorem pos_prim (s : St) (p : Prim) (hp : Pos s) : Pos (prim s p) := by
+  cases p with
+  | new d id =>
+    simp only [prim]
+    apply pos_release
+    refine pos_of_heap_eq (s := { s with heap := s.heap ++ [{ id := id, rc := 1 }] }) ?_ rfl
+    intro z oz hz hzd
+    have hz' : (s.heap ++ [({ id := id, rc := 1 } : LObj)])[z]? = some oz := hz
+    by_cases hzl : z < s.heap.length
+    · rw [List.getElem?_append_left hzl] at hz'; exact hp z oz hz' hzd
+    · rw [List.getElem?_append_right (Nat.le_of_not_lt hzl)] at hz'
+      cases hk : z - s.heap.length with
+      | zero => rw [hk] at hz'; simp at hz'; subst hz'; exact Nat.le_refl _
+      | succ k => rw [hk] at hz'; simp at hz'
+  | set f d src =>
+    simp only [prim]
+    split
+    · split
+      · split
+        · rename_i o1 ho1
+          apply pos_release
+          apply pos_set (pos_retain hp _)
+          intro h
+          rw [put_rc]; rw [put_dead] at h
+          exact pos_retain hp _ _ o1 ho1 h
+        · exact pos_retain hp _
+      · exact hp
+    · exact hp
+  | load f d src =>
+    simp only [prim]
+    split
+    · split
+      · exact pos_assignSlot hp _ _
+      · exact hp
+    · exact hp
+  | mov d src => exact pos_assignSlot hp _ _
+  | clr d => exact pos_assignSlot hp _ _
+  | «show» d => simp only [prim]; split <;> exact pos_of_heap_eq hp rfl
+  | showA d =>
+    simp only [prim]
+    split
+    · split
+      · split <;> exact pos_of_heap_eq hp rfl
+      · exact pos_of_heap_eq hp rfl
+    · exact pos_of_heap_eq hp rfl
+  | showNN d =>
+    simp only [prim]
+    split
+    · exact pos_of_heap_eq hp rfl
+    · exact hp
+
+theorem exec_pos : ∀ (ps : List Prim) (s : St), Pos s → Pos (exec ps s)
+  | [], _, h => h
+  | p :: ps, s, h => exec_pos ps (prim s p) (pos_prim s p h)
+
+theorem init_pos : Pos initSt := by intro x o hx; simp [initSt] at hx
+
+/-- the programs the heap generator writes use slots 0..8 -/
+def Op.wf : Gc.Op → Prop
+  | .new v _ => v < 9
+  | .geta _ w => w < 9
+  | .getb _ w => w < 9
+  | .null v => v < 9
+  | .link v _ _ => v < 9
+  | _ => True
+
+theorem churn_wf : ∀ n, ∀ p ∈ Gc.churnPrims n, Prim.wf 9 p
+  | 0 => by intro p hp; simp [Gc.churnPrims] at hp
+  | n + 1 => by
+    intro p hp
+    simp only [Gc.churnPrims, List.mem_append, List.mem_cons] at hp
+    rcases hp with hp | hp
+    · rcases hp with h | h | h | h | h | h | h <;> first | (subst h; simp [Prim.wf]) | (simp at h)
+    · exact churn_wf n p hp
+
+theorem walk_wf : ∀ n, ∀ p ∈ Gc.walkPrims n, Prim.wf 9 p
+  | 0 => by intro p hp; simp [Gc.walkPrims] at hp
+  | n + 1 => by
+    intro p hp
+    simp only [Gc.walkPrims, List.mem_append, List.mem_cons] at hp
+    rcases hp with hp | hp
+    · rcases hp with h | h | h <;> first | (subst h; simp [Prim.wf]) | (simp at h)
+    · exact walk_wf n p hp
+
+theorem compile_wf (op : Gc.Op) (h : Op.wf op) : ∀ p ∈ Gc.compile op, Prim.wf 9 p := by
+  intro p hp
+  cases op with
+  | new v id => simp [Gc.compile] at hp; subst hp; exact h
+  | seta v w => simp [Gc.compile] at hp; subst hp; trivial
+  | setb v w => simp [Gc.compile] at hp; subst hp; trivial
+  | geta v w => simp [Gc.compile] at hp; subst hp; exact h
+  | getb v w => simp [Gc.compile] at hp; subst hp; exact h
+  | null v => simp [Gc.compile] at hp; subst hp; exact h
+  | «show» v => simp [Gc.compile] at hp; subst hp; trivial
+  | showa v => simp [Gc.compile] at hp; subst hp; trivial
+  | churn n => exact churn_wf n p hp
+  | link v id1 id2 =>
+    simp only [Gc.compile, List.mem_append, List.mem_cons] at hp
+    rcases hp with (hp | hp) | hp
+    · rcases hp with h1 | h1 <;> first | (subst h1; simp [Prim.wf]) | (simp at h1)
+    · exact churn_wf 2 p hp
+    · rcases hp with h1 | h1 | h1 | h1 | h1 | h1 | h1 <;>
+        first | (subst h1; first | exact h | simp [Prim.wf]) | (simp at h1)
+  | walk v k =>
+    simp only [Gc.compile, List.mem_append, List.mem_cons] at hp
+    rcases hp with (hp | hp) | hp
+    · rcases hp with h1 | h1 <;> first | (subst h1; simp [Prim.wf]) | (simp at h1)
+    · exact walk_wf k p hp
+    · rcases hp with h1 | h1 <;> first | (subst h1; simp [Prim.wf]) | (simp at h1)
+
+theorem runOps_inv (ops : List Gc.Op) (h : ∀ op ∈ ops, Op.wf op) : Inv (runOps ops) ∧ Pos (runOps ops) := by
+  refine ⟨exec_inv _ _ init_inv ?_, exec_pos _ _ init_pos⟩
+  intro p hp
+  obtain ⟨op, hop, hpo⟩ := List.mem_flatMap.mp hp
+  have : initSt.slots.length = 9 := by simp [initSt]
+  rw [this]
+  exact compile_wf op (h op hop) p hpo
+
 end BlochVerif.Life
